@@ -103,10 +103,18 @@ fn strip_newlines(e: &Expr) -> Expr {
 }
 
 fn comment_text(d: &mut Dec) -> String {
-    match d.below(10) {
+    match d.below(16) {
         0 => String::new(),
         1 => " ".into(),
         2 => "/ triple slash".into(),
+        // more slashes after the marker are content
+        10 => "// four slashes".into(),
+        11 => "//////".into(),
+        12 => format!("/// n{} //", d.below(9)),
+        // indentation after the marker with white space of more than one byte
+        13 => "\u{a0}\u{3000}wide indent".into(),
+        14 => format!(" \u{2003}\u{2028}em {}\u{85}", d.below(9)),
+        15 => "\u{3000}".into(),
         3 => "\t padded name \t ".into(),
         4 => " @name: \"not metadata\";".into(),
         5 => " i1 + i2".into(),
@@ -121,11 +129,16 @@ fn build_script(bytes: &[u8]) -> Script {
     let mut d = Dec::new(bytes);
     let nl = if d.below(4) == 0 { "\r\n" } else { "\n" };
     // metadata items
-    let nmeta = d.below(5);
+    // (one script in forty is large: up to 40 metadata items and ten times the comment lines)
+    let large = d.below(40) == 39;
+    let nmeta = if large { 5 + d.below(36) } else { d.below(5) };
     let mut meta: Vec<MetaItem> = vec![];
     let mut have_name = false;
-    for _ in 0..nmeta {
+    for mi in 0..nmeta {
         let mut key = d.pick(&KEYS).to_string();
+        if large && d.below(3) != 0 {
+            key = format!("{key}{mi}");
+        }
         if key == "name" {
             if have_name {
                 key = "k".into();
@@ -221,7 +234,7 @@ fn build_script(bytes: &[u8]) -> Script {
             }
         }
     };
-    emit_comments(&mut d, &mut text, &mut comments, 3);
+    emit_comments(&mut d, &mut text, &mut comments, if large { 30 } else { 3 });
     let mut at_line_start = true;
     for (i, t) in all.iter().enumerate() {
         if !at_line_start {
@@ -410,4 +423,9 @@ pub fn replay(j: &serde_json::Value) -> Option<Verdict> {
     }
     let bytes: Vec<u8> = j.get("script_bytes")?.as_array()?.iter().filter_map(|b| b.as_u64().map(|x| x as u8)).collect();
     Some(check(&build_script(&bytes)))
+}
+
+/// Entry point of the `set_diff` fuzz target.
+pub(crate) fn fuzz_bytes(bytes: &[u8]) -> Verdict {
+    check(&build_script(bytes))
 }
